@@ -129,11 +129,15 @@ theorem C02_restart_on_reachable_bucket (hash : Key → Nat) (K : Key → Prop) 
 
 end Hints
 
-/-- The schedule part of C02 (shutdown racing the post-rotation flush goroutine / the hint dumper) is NOT
-    covered by the sequential model: `Bucket.close` flushes only the head file.  It is stated here so that the
-    gap stays visible; see DESIGN.md (C02, partial) and the conc engine. -/
-def C02_close_any_schedule_statement : Prop :=
-  ∀ (pendingRotationFlush : Bool), pendingRotationFlush = false   -- placeholder for the L1c statement (not proved)
+/-- Shutdown against the post-rotation flushes: in the model a clean shutdown leaves EVERY data file completely on
+    disk, whatever had been flushed before — the head file and every file left behind by a rotation whose flush goroutine
+    has not run yet (`flushed` arbitrary).  That `Bucket.close` really does this for every file below the head is the
+    repaired code (/repo d2aaa9d `flushPending`; call-order fact `bucket.close.order`), exercised by engine crash mix c02
+    with several rotations and only SOME of their flushes held while Close runs (seed C02-e). -/
+theorem C02_close_flushes_every_file (hash : Key → Nat) (cfg : Store.Cfg) (b : Bucket) (keep : Bool) (i : Nat) :
+    ((Store.step hash cfg b (.reopen keep)).1.chunks i).flushed = ((Store.step hash cfg b (.reopen keep)).1.chunks i).recs.length
+    ∧ ((Store.step hash cfg b (.reopen keep)).1.chunks i).recs = (b.chunks i).recs :=
+  ⟨rfl, rfl⟩
 
 /-! Non-vacuity: a history with two restarts (one loading the tree, one rebuilding it) around a delete. -/
 def exOps2 : List Op := [
